@@ -13,7 +13,7 @@ import (
 func init() {
 	register(&Property{
 		ID: "C05", Level: "fault_enumeration", Builds: []string{"plain", "checkptr", "race"},
-		Rule:        "cases = bitmaps reached by generated histories (chunk kinds depend on the history; 0,1,3,4,5,~300 and 65536 chunks; with/without run chunks) serialized by WriteTo/ToBytes/MarshalBinary/ToBase64 and decoded through ReadFrom (bytes.Reader with a sentinel tail; a reader delivering 1..7 bytes per Read; a reader returning (n>0, io.EOF)), FromBuffer, FromUnsafeBytes, UnmarshalBinary, FromBase64, each into a fresh receiver and into receivers that held a larger / smaller / copy-on-write / zero-copy bitmap; byte counts compared (len(ToBytes)=GetSerializedSizeInBytes=n(WriteTo)=n(reader)); the decoded bitmap is then mutated 20 steps against the model. FAULT ENUMERATION: a contract-abiding failing io.Writer at EVERY byte offset for streams <= 4 KiB (header-field boundaries +-1 plus 64 sampled offsets above) must make WriteTo return an error. The same unit also runs in a checkptr build. Non-trivial: non-empty bitmap; distinct = hash(set, kinds). Race build: independent bitmaps on independent goroutines (4-32 goroutines, GOMAXPROCS 1-16; every writer through a writer that yields inside Write, every decoder through a reader that yields inside Read, private mutations in between) must neither race inside the library nor influence each other (each goroutine checks its own model, an independent decoder and byte equality of all writers).",
+		Rule:        "cases = bitmaps reached by generated histories (chunk kinds depend on the history; 0,1,3,4,5,~300 and 65536 chunks; with/without run chunks) serialized by WriteTo/ToBytes/MarshalBinary/ToBase64 and decoded through ReadFrom (bytes.Reader with a sentinel tail; a reader delivering 1..7 bytes per Read; a reader returning (n>0, io.EOF)), FromBuffer, FromUnsafeBytes, UnmarshalBinary, FromBase64, each into a fresh receiver and into receivers that held a larger / smaller / copy-on-write / zero-copy bitmap; byte counts compared (len(ToBytes)=GetSerializedSizeInBytes=n(WriteTo)=n(reader)); the decoded bitmap is then mutated 20 steps against the model. FAULT ENUMERATION: a contract-abiding failing io.Writer at EVERY byte offset for streams <= 4 KiB (header-field boundaries +-1 plus 64 sampled offsets above) must make WriteTo return an error. The same unit also runs in a checkptr build. Non-trivial: non-empty bitmap; distinct = hash(set, kinds). Race build: independent bitmaps on independent goroutines (4-32 goroutines, GOMAXPROCS 1-16; every writer through a writer that yields inside Write, every decoder through a reader that yields inside Read, private mutations in between) must neither race inside the library nor influence each other (each goroutine checks its own model, an independent decoder and byte equality of all writers). Small-scope exhaustive units: every chunk count (writers, accounting, all decoders, failing writers; returned slices overwritten by the caller) and receivers grown to 1..400 (thorough 1..1500) chunks by three histories x every nearby stream chunk count. Second generation: the decoded, mutated bitmap is serialized again and reloaded into a fresh bitmap and over itself.",
 		Assumptions: []string{"interval-set model validated by selfcheck", "zero-copy inputs are kept reachable and unmodified by the harness for the lifetime of the bitmap (documented caller obligation)"},
 		Units: []Unit{
 			{Name: "roundtrip@plain,checkptr", Quick: 1600, Thorough: 60000, Run: c05RoundTrip},
